@@ -187,6 +187,7 @@ class Harness:
             if t != env.now:
                 self._action(["adv", qs(t)])
             n += 1
+            self.steps_started = n               # read by hang_guard: progress = this number changes between two alarms
             self.cur_outs = []
             try:
                 env.step()
@@ -268,3 +269,41 @@ def shrink_workload(w):
 def _clean(w):
     used = {str(u) for d in w["drivers"] for (_, uids) in d["bursts"] for u in uids}
     return {**w, "packets": {k: v for k, v in w["packets"].items() if k in used}}
+
+
+class hang_guard:
+    """Bounds a Harness.run() against element processes that loop without yielding (env.step() never returns).
+    A SIGALRM-driven guard that fires only when the SAME kernel step is still running at `grace` consecutive alarms
+    (first alarm after `first` seconds, then every `every`): a run that is merely slow -- a loaded machine, a long garbage
+    collection in a process with a big heap -- keeps making steps and is never interrupted (a guard on the total run time
+    misfired in the thorough tier of C03).  The alarm repeats, so every spinning process of a multi-instance case gets its
+    own exception; the previous handler and timer are restored on exit."""
+
+    def __init__(self, h, make_exc, first=2.0, every=1.0, grace=2):
+        self.h, self.make_exc, self.first, self.every, self.grace = h, make_exc, first, every, grace
+
+    def __enter__(self):
+        import signal
+        import time
+        self.signal, self.time = signal, time
+        self.seen, self.stuck = None, 0
+
+        def handler(signum, frame):
+            cur = getattr(self.h, "steps_started", 0)
+            if cur == self.seen:
+                self.stuck += 1
+            else:
+                self.seen, self.stuck = cur, 1
+            if self.stuck >= self.grace:
+                self.stuck = self.grace - 1          # the next spinning process is interrupted one alarm later
+                raise self.make_exc()
+        self.old_h = signal.signal(signal.SIGALRM, handler)
+        self.t0 = time.time()
+        self.old_t = signal.setitimer(signal.ITIMER_REAL, self.first, self.every)
+        return self
+
+    def __exit__(self, *a):
+        left = max(self.old_t[0] - (self.time.time() - self.t0), 0.05) if self.old_t[0] else 0
+        self.signal.signal(self.signal.SIGALRM, self.old_h)
+        self.signal.setitimer(self.signal.ITIMER_REAL, left, 1.0 if left else 0)
+        return False
